@@ -19,6 +19,14 @@ type cfg struct {
 	T  float64
 	P  uint32
 	CF uint32
+	I  uint32 // StatIntervalInMs: 0 (the default 1000 ms) or a shorter interval; the threshold is per interval
+}
+
+func (c cfg) iv() int {
+	if c.I == 0 {
+		return 1000
+	}
+	return int(c.I)
 }
 
 func (c cfg) cf() float64 {
@@ -30,7 +38,7 @@ func (c cfg) cf() float64 {
 
 func loadWarm(t *rapid.T, c cfg) {
 	hx.Reset(hx.Epoch)
-	r := &flow.Rule{Resource: "w", Threshold: c.T, TokenCalculateStrategy: flow.WarmUp, ControlBehavior: flow.Reject, WarmUpPeriodSec: c.P, WarmUpColdFactor: c.CF}
+	r := &flow.Rule{Resource: "w", Threshold: c.T, TokenCalculateStrategy: flow.WarmUp, ControlBehavior: flow.Reject, WarmUpPeriodSec: c.P, WarmUpColdFactor: c.CF, StatIntervalInMs: c.I}
 	if _, err := flow.LoadRules([]*flow.Rule{r}); err != nil {
 		t.Fatalf("LoadRules: %v", err)
 	}
@@ -39,14 +47,17 @@ func loadWarm(t *rapid.T, c cfg) {
 	}
 }
 
-// demand issues perSec single-token requests per aligned second for secs seconds starting at
-// aligned second startSec (relative to the epoch) and returns the admitted count per second.
+// ivMs is the statistic interval of the rule of the running case (the unit the threshold is expressed in).
+var ivMs = 1000
+
+// demand issues perSec single-token requests per aligned statistic interval for secs seconds starting at
+// aligned second startSec (relative to the epoch) and returns the admitted count per interval.
 func demand(startSec, secs, perSec int) []int {
 	var per []int
-	for s := 0; s < secs; s++ {
+	for s := 0; s < secs*1000/ivMs; s++ {
 		n := 0
 		for k := 0; k < perSec; k++ {
-			hx.C.SetMs(hx.Epoch + uint64(startSec+s)*1000 + uint64(k)*1000/uint64(perSec))
+			hx.C.SetMs(hx.Epoch + uint64(startSec)*1000 + uint64(s*ivMs) + uint64(k*ivMs)/uint64(perSec))
 			if e, _ := sentinel.Entry("w"); e != nil {
 				n++
 				e.Exit()
@@ -66,12 +77,15 @@ func drawCfg(t *rapid.T) cfg {
 	if T >= 1000 {
 		maxP = 2
 	}
-	return cfg{T: T, P: uint32(rapid.IntRange(1, maxP).Draw(t, "P")), CF: uint32(rapid.SampledFrom([]int{0, 2, 3, 5, 10}).Draw(t, "CF"))}
+	return cfg{T: T, P: uint32(rapid.IntRange(1, maxP).Draw(t, "P")), CF: uint32(rapid.SampledFrom([]int{0, 2, 3, 5, 10}).Draw(t, "CF")),
+		I: uint32(rapid.SampledFrom([]int{0, 0, 0, 1000, 500, 250}).Draw(t, "statIntervalMs"))}
 }
 
 func TestWarmUpEnvelope(t *testing.T) {
-	hx.Check(t, hx.N{Quick: 1500, Thorough: 20000}, func(t *rapid.T, c *hx.Case) {
+	hx.Check(t, hx.N{Quick: 4000, Thorough: 20000}, func(t *rapid.T, c *hx.Case) {
 		g := drawCfg(t)
+		ivMs = g.iv()
+		defer func() { ivMs = 1000 }()
 		cf := g.cf()
 		floorT := int(math.Floor(g.T))
 		starveShape := g.T/cf <= 1 // "<= 1": at T/cf == 1 the computed cold threshold can round to just below 1
@@ -82,8 +96,8 @@ func TestWarmUpEnvelope(t *testing.T) {
 			sat = 3
 		}
 		warm := int(2*g.P + 2)
-		scenario := rapid.IntRange(0, 4).Draw(t, "scenario")
-		c.Op("T=%v period=%ds coldFactor=%d scenario=%d", g.T, g.P, g.CF, scenario)
+		scenario := rapid.IntRange(0, 5).Draw(t, "scenario")
+		c.Op("T=%v period=%ds coldFactor=%d statInterval=%dms scenario=%d", g.T, g.P, g.CF, g.iv(), scenario)
 		coldBound := int(math.Ceil(g.T/cf)) + 1
 		switch scenario {
 		case 0: // cold start, then saturating demand through the warm-up period
@@ -101,7 +115,7 @@ func TestWarmUpEnvelope(t *testing.T) {
 			if starveShape && exP9 {
 				c.Excluded("P9")
 			} else {
-				for s := warm; s < len(per); s++ {
+				for s := warm * 1000 / ivMs; s < len(per); s++ {
 					if per[s] != floorT {
 						t.Fatalf("after %d s of saturating demand (period %d s): second %d admitted %d, full threshold is floor(%v) (admitted/s %v)", warm, g.P, s, per[s], g.T, per)
 					}
@@ -161,7 +175,7 @@ func TestWarmUpEnvelope(t *testing.T) {
 			if per[0] > coldBound && !(starveShape && exP9) {
 				t.Fatalf("after short gaps and then an idle gap of %d s the first second admitted %d > ceil(T/coldFactor)+1 = %d (the rule did not cool down)", idle, per[0], coldBound)
 			}
-		case 3: // arbitrary demand phases: never above the threshold, never unlimited
+		case 3, 5: // arbitrary demand phases: never above the threshold, never unlimited; (5) and cold again after a long idle
 			loadWarm(t, g)
 			sec := 0
 			nph := rapid.IntRange(1, 6).Draw(t, "phases")
@@ -186,6 +200,14 @@ func TestWarmUpEnvelope(t *testing.T) {
 							t.Fatalf("second %d of a demand phase (%d/s): admitted %d > floor(threshold %v): %v", s, d, n, g.T, per)
 						}
 					}
+				}
+			}
+			if scenario == 5 {
+				idle := int(2*g.P+2) + rapid.IntRange(0, 3).Draw(t, "extraIdle")
+				per := demand(sec+idle, 1, sat)
+				c.Op("after idle %ds admitted %v", idle, per)
+				if per[0] > coldBound && !(starveShape && exP9) {
+					t.Fatalf("after arbitrary demand and then an idle gap of %d s (period %d s) the first interval admitted %d > ceil(T/coldFactor)+1 = %d (the rule did not cool down)", idle, g.P, per[0], coldBound)
 				}
 			}
 		}
@@ -327,7 +349,7 @@ func sortInt64(a []int64) {
 // P9b (repaired): Threshold 0.5, period 1, cold factor 3 made the threshold NaN = unlimited admission.
 func TestP_RegressP9NaN(t *testing.T) {
 	hx.Plain(t, func(c *hx.Case) {
-		for _, g := range []cfg{{0.5, 1, 3}, {0, 5, 0}, {1, 1, 10}} {
+		for _, g := range []cfg{{0.5, 1, 3, 0}, {0, 5, 0, 0}, {1, 1, 10, 0}} {
 			hx.Reset(hx.Epoch)
 			flow.LoadRules([]*flow.Rule{{Resource: "w", Threshold: g.T, TokenCalculateStrategy: flow.WarmUp, ControlBehavior: flow.Reject, WarmUpPeriodSec: g.P, WarmUpColdFactor: g.CF}})
 			per := demand(0, 3, 10)
@@ -337,6 +359,21 @@ func TestP_RegressP9NaN(t *testing.T) {
 					t.Fatalf("warm-up rule T=%v period=%d coldFactor=%d admitted %v per second (threshold NaN?)", g.T, g.P, g.CF, per)
 				}
 			}
+		}
+		c.NonTrivial()
+	})
+}
+
+// P27 (repaired): a token balance of exactly warningToken was never refilled: the rule stayed hot for ever.
+func TestP_RegressP27(t *testing.T) {
+	hx.Plain(t, func(c *hx.Case) {
+		hx.Reset(hx.Epoch)
+		flow.LoadRules([]*flow.Rule{{Resource: "w", Threshold: 10, TokenCalculateStrategy: flow.WarmUp, ControlBehavior: flow.Reject, WarmUpPeriodSec: 4, WarmUpColdFactor: 5}})
+		ramp := demand(0, 6, 4)
+		per := demand(6+10, 1, 30)
+		c.Op("T=10 P=4 CF=5: 4 req/s for 6 s admitted %v; idle 10 s; then 30 req in one second admitted %v", ramp, per)
+		if per[0] > 3 {
+			t.Fatalf("warm-up rule T=10 period=4 s coldFactor=5: after 4 req/s for 6 s and 10 s idle the first second admitted %d, cold rate is T/coldFactor = 2 (balance stuck at the warning line)", per[0])
 		}
 		c.NonTrivial()
 	})
